@@ -330,7 +330,7 @@ impl<T: Engine> Block for FftFilter<T> {
 /// therefore, this Float version of the FftFilter has a little worse
 /// performance than the Complex filter.
 #[derive(rustradio_macros::Block)]
-#[rustradio(crate)]
+#[rustradio(crate, noeof)]
 pub struct FftFilterFloat<T: Engine> {
     complex: FftFilter<T>,
     #[rustradio(in)]
@@ -386,6 +386,26 @@ impl<T: Engine> FftFilterFloat<T> {
             },
             dr,
         )
+    }
+}
+
+impl<T: Engine> crate::block::BlockEOF for FftFilterFloat<T> {
+    fn eof(&mut self) -> bool {
+        // The input having ended is not enough: converted samples may still be
+        // on their way through the inner filter, e.g. because the output
+        // stream was full when they came out.
+        let inner_in_empty = self
+            .complex
+            .src
+            .read_buf()
+            .map(|(b, _)| b.is_empty())
+            .unwrap_or(true);
+        let inner_out_empty = self
+            .inner_out
+            .read_buf()
+            .map(|(b, _)| b.is_empty())
+            .unwrap_or(true);
+        self.src.eof() && inner_in_empty && inner_out_empty
     }
 }
 
